@@ -451,7 +451,7 @@ fn do_yield(site: &'static str, force: bool) {
     if !force && !SYNC_GRAN.load(Ordering::Relaxed) {
         return;
     }
-    if std::thread::panicking() {
+    if std::thread::panicking() && !simulate_unwinding() {
         return;
     }
     let mut st = lock();
@@ -473,6 +473,19 @@ fn do_yield(site: &'static str, force: bool) {
         Some(next) => hand_over(st, m, next, true),
         None => abort(st, "harness:no-candidate-at-yield"),
     }
+}
+
+thread_local! {
+    static SIM_UNWINDING: std::cell::Cell<bool> = const { std::cell::Cell::new(false) };
+}
+/// By default a thread that is unwinding from a panic takes no scheduling points (destructors run straight through).
+/// A harness that wants a *blocking* destructor to run under the scheduler while its thread unwinds (a guard whose drop
+/// waits for another simulated thread) switches that off for the calling thread.
+pub fn set_simulate_unwinding(on: bool) {
+    SIM_UNWINDING.with(|c| c.set(on));
+}
+fn simulate_unwinding() -> bool {
+    SIM_UNWINDING.try_with(|c| c.get()).unwrap_or(false)
 }
 
 /// A preemption point inside an operation (live only in `sync` granularity).
@@ -497,7 +510,7 @@ pub fn block_until(site: &'static str, deadline: Option<u64>, mut test: impl FnM
             m = me();
         }
     }
-    if !ACTIVE.load(Ordering::Relaxed) || m >= MAX_THREADS || std::thread::panicking() {
+    if !ACTIVE.load(Ordering::Relaxed) || m >= MAX_THREADS || (std::thread::panicking() && !simulate_unwinding()) {
         // outside the simulation: real spinning, real (bounded) patience for timed waits
         let t0 = std::time::Instant::now();
         loop {
